@@ -238,11 +238,11 @@ func c16R1(a *A, r *Roles) {
 		a.Calls++
 		switch {
 		case m.Name() == "StripChecksum":
-			a.check(recv == r.RawEv && len(c.Common().Args) == 1 && c.Common().Args[0] == r.FormatPhi, rule, key, w.posOf(c), "strips the received event with the current format", "StripChecksum is not applied to the received event with the current format")
+			a.check(recv == r.RawEv && len(c.Common().Args) == 1 && r.isFormat(c.Common().Args[0]), rule, key, w.posOf(c), "strips the received event with the current format", "StripChecksum is not applied to the received event with the current format")
 		case takesFormat:
 			ok := recv == r.StrippedEv
 			for _, arg := range c.Common().Args {
-				if namedIs(arg.Type(), replPath, "BinlogFormat") && arg != r.FormatPhi {
+				if namedIs(arg.Type(), replPath, "BinlogFormat") && !r.isFormat(arg) {
 					ok = false
 				}
 			}
@@ -292,6 +292,22 @@ func c16R6(a *A, r *Roles) {
 					okFlow = true
 				}
 			}
+		}
+	}
+	if !ok {
+		// the variable lives in memory (captured by a closure): the decoded format is stored into its cell
+		if u, isLoad := r.FormatPhi.(*ssa.UnOp); isLoad && u.Op == token.MUL {
+			instrs(r.Parser, func(in ssa.Instruction) {
+				st, isSt := in.(*ssa.Store)
+				if !isSt || st.Addr != u.X {
+					return
+				}
+				if ex, isEx := st.Val.(*ssa.Extract); isEx && ex.Index == 0 {
+					if c, isC := ex.Tuple.(*ssa.Call); isC && c.Common().IsInvoke() && c.Common().Method.Name() == "Format" && c.Common().Value == r.RawEv {
+						okFlow = true
+					}
+				}
+			})
 		}
 	}
 	a.check(okFlow, rule, "format-adopted@parser", w.posOf(fdIf), "the decoded format becomes the current format", "the result of Format() on the received event does not become the format used for later events")
